@@ -4285,6 +4285,12 @@ class NameCheckVisitor(node_visitor.ReplacingNodeVisitor):
             # should always execute and has already been combined in.
             with self.scopes.subscope() as body_scope:
                 pass
+        elif orelse:
+            # The else clause runs when the loop is exhausted, which may be after
+            # any number of iterations.
+            with self.scopes.subscope() as no_iteration_scope:
+                pass
+            self.scopes.combine_subscopes([body_scope, no_iteration_scope])
         with self.scopes.subscope() as else_scope:
             self._generic_visit_list(orelse)
         self.scopes.combine_subscopes([body_scope, else_scope])
